@@ -6,6 +6,8 @@
 //!
 //! Input (JSON file, argument 1): {"floats": [[w3,w2,w1,w0]..], "ints": [[sign,l1..l5]..],
 //!                                 "strings": [[code points]..], "words": [[code points]..]}
+//!                                 optional "pairs": [[a, b]..] - the operand pairs of the binary primitives
+//!                                 (default: every ordered pair of floats and ints)
 //! Output (JSON file, argument 2): {"<op>": {"<key>": result, ...}, ...} where key is TLC's ToString of
 //! <<a, b>> (binary) or <<a>> (unary), e.g. `<<<<16368, 0, 0, 0>>, <<0, 0, 0, 0>>>>`.
 use serde_json::{json, Map, Value as J};
@@ -78,12 +80,26 @@ fn main() {
         ("fatan2", |a, b| a.atan2(b)),
         ("fhypot", |a, b| a.hypot(b)),
     ];
+    // binary primitives: every ordered pair of the pool, unless the request lists the pairs it needs ("pairs")
+    let mut pairs: Vec<(f64, f64)> = Vec::new();
+    match input.get("pairs").and_then(|p| p.as_array()) {
+        Some(ps) => {
+            for p in ps {
+                pairs.push((from_words(&p[0]), from_words(&p[1])));
+            }
+        },
+        None => {
+            for a in &all {
+                for b in &all {
+                    pairs.push((*a, *b));
+                }
+            }
+        },
+    }
     for (name, f) in bin {
         let mut m = Map::new();
-        for a in &all {
-            for b in &all {
-                m.insert(key2(&tla_seq(&words(*a)), &tla_seq(&words(*b))), json!(words(f(*a, *b))));
-            }
+        for (a, b) in &pairs {
+            m.insert(key2(&tla_seq(&words(*a)), &tla_seq(&words(*b))), json!(words(f(*a, *b))));
         }
         out.insert(name.into(), J::Object(m));
     }
